@@ -298,6 +298,15 @@ def run(ctx):
         okp, _ = must_pass(c, 0, [m.bb], after_start=False) if m.bb != 0 else (True, None)
         ctx.ob(okp or m.bb == 0 or c.dominates(m.bb, c.exits()[0]), 'drain closure pushes every id unconditionally into %s' % f, 'drain-uncond|' + f, loc=m.loc())
 
+    # no tracking container is ever overwritten wholesale while it may hold ids (only the swapped-out
+    # user queue is assigned back at CONNACK)
+    for f, m in prims.field_mutations(F, PS, P):
+        if f in ('resubmit_operation_queue', 'high_priority_operation_queue', 'pending_publish_operations', 'pending_non_publish_operations',
+                 'pending_write_completion_operations', 'operations', 'allocated_packet_ids') and m.kind == 'assign' and not m.path[2][1:]:
+            ctx.ob(False, 'tracking container `%s` is overwritten by assignment in %s (ids it held are silently dropped)' % (f, short(m.view.path)), 'overwrite|%s|%s' % (f, short(m.view.path)), loc=m.loc())
+    uq = [m for f, m in prims.field_mutations(F, PS, P) if f == 'user_operation_queue' and m.kind == 'assign' and not m.path[2][1:]]
+    ctx.ob(len(uq) == 1 and 'apply_session_present_to_connection' in uq[0].view.path and show(uq[0].rv) == 'user_queue', 'the user queue is assigned only once: the swapped-out queue is put back at CONNACK', 'overwrite|user_operation_queue', loc=uq[0].loc() if uq else None)
+
     # ------------------------------------------------------------------ R-C01-7
     ctx.rule('R-C01-7', 'T3 + T5 field coverage', 'reset fails every tracked operation before clearing the table and resets every tracking field; Shutdown resets the engine')
     rs = ctx.fn('ProtocolState::reset')
